@@ -364,7 +364,10 @@ def raw_mutex_ops(f):
         if st["k"] == "CXXMemberCallExpr":
             obj = f.s(st["obj"])
             c = st.get("callee") or {}
-            if obj is not None and is_mutex_type(obj.get("t", "")) and c.get("name") in RAW_MUTEX_OPS:
+            ot_ = obj.get("t", "") if obj is not None else ""
+            if ot_.rstrip().endswith("*"):
+                ot_ = ot_.rstrip()[:-1].rstrip()        # m_mutexPtr->unlock()
+            if obj is not None and is_mutex_type(ot_) and c.get("name") in RAW_MUTEX_OPS:
                 out.append((st, "raw %s() on mutex %s" % (c["name"], path(f, obj))))
             if obj is not None and lock_class(obj.get("t", "")) and c.get("name") == "release":
                 out.append((st, "lock.release() abandons ownership without unlocking"))
@@ -502,7 +505,11 @@ def _flag_owner_hygiene(ctx, f, st, m):
     RAII lock it replaces: its destructor releases, it cannot be copied, and a move hands the flag over (an implicit
     or defaulted move COPIES a bool: both objects then unlock).  Yields (ok, site, statement, detail)."""
     from .engine import describe_cond_arm
-    if m is None or not m.startswith("this.") or not f.rec:
+    if m is None or not f.rec:
+        return
+    if m.startswith("*this.") or m.startswith("this."):
+        pass
+    else:
         return
     recs = [r for r in ctx.fb.records() if r.qname == f.recq]
     if not recs:
@@ -512,6 +519,15 @@ def _flag_owner_hygiene(ctx, f, st, m):
     for fl in r.fields:
         if fl["type"] == "bool" and describe_cond_arm(f, st, "this." + fl["name"]) is True:
             flag = fl["name"]
+    if flag is None:
+        # ownership carried by a nullable pointer to the mutex: `if (m_mutex != nullptr) { m_mutex->unlock(); m_mutex = nullptr; }`
+        from .typestate import NonNull
+        pos_ = f.pos_of(st)
+        nn_ = NonNull(f)
+        for fl in r.fields:
+            if fl["type"].rstrip().endswith("*") and pos_ is not None and \
+                    ("nn", "this." + fl["name"]) in nn_.before.get(tuple(pos_), set()) and m.lstrip("*") == "this." + fl["name"]:
+                flag = fl["name"]
     if flag is None:
         return
     site = "%s:%d" % (short(r.file), r.line)
@@ -526,7 +542,7 @@ def _flag_owner_hygiene(ctx, f, st, m):
         ok = False
         for g in ctx.fb.functions(rec=f.rec):
             if g.kind == "dtor" and g.recq == f.recq:
-                ok = any(t.startswith("raw unlock") and path(g, g.s(s_["obj"])) == m for s_, t in raw_mutex_ops(g))
+                ok = any(t.startswith("raw unlock") and (path(g, g.s(s_["obj"])) or "").lstrip("*") == m.lstrip("*") for s_, t in raw_mutex_ops(g))
         yield (ok, site, what + ": its destructor releases the lock", "" if ok else "the destructor never unlocks " + m[5:])
     cc = [x for x in r.methods if x.get("copy_ctor") and not x.get("deleted")]
     yield (not cc, site, what + ": it cannot be copied", "" if not cc else "the %s copy constructor duplicates the flag: two objects "
@@ -534,7 +550,7 @@ def _flag_owner_hygiene(ctx, f, st, m):
     mv = [x for x in r.methods if x.get("move_ctor") and not x.get("deleted")]
     for x in mv:
         if x.get("implicit") or x.get("defaulted"):
-            yield (False, site, what + ": a move hands the flag over", "the %s move constructor copies the bool: the moved-from object "
+            yield (False, site, what + ": a move hands the flag over", "the %s move constructor copies the flag: the moved-from object "
                    "still believes it owns the lock and unlocks it a second time (or while the new owner is still writing)"
                    % ("implicit" if x.get("implicit") else "defaulted"))
         else:
@@ -545,7 +561,13 @@ def _flag_owner_hygiene(ctx, f, st, m):
                     for s_ in g.stmts.values():
                         if s_["k"] == "BinaryOperator" and s_.get("op") == "=" and path(g, g.children(s_)[0]) == src:
                             v = unwrap(g, g.children(s_)[1])
-                            ok = v is not None and v["k"] == "CXXBoolLiteralExpr" and v["v"] is False
+                            ok = v is not None and ((v["k"] == "CXXBoolLiteralExpr" and v["v"] is False) or
+                                                    v["k"] in ("CXXNullPtrLiteralExpr", "GNUNullExpr"))
+                    for i_ in g.inits:      # m_ptr(std::exchange(other.m_ptr, nullptr))
+                        e_ = g.s(i_.get("init"))
+                        if i_.get("field") == flag and e_ is not None and any(
+                                d["k"] == "CallExpr" and callee_fq(d) == "std::exchange" for d in g.descendants(e_)):
+                            ok = True
             yield (ok, site, what + ": a move hands the flag over", "" if ok else "the move constructor does not clear the source's " + flag)
 
 
